@@ -22,6 +22,13 @@ def zero32 : Bytes := List.replicate 32 0
 def fmr (H : Hashes) (leaves : List Bytes) : Option Bytes := FastMerkle.fast H.comb zero32 leaves
 end Hashes
 
+namespace Tx
+/-- `Transaction::txid`: double SHA-256 of the witness-stripped serialization -/
+def txid (H : Hashes) (t : Tx) : Bytes := H.sha256d t.encStripped
+/-- `Transaction::wtxid`: double SHA-256 of the full serialization -/
+def wtxid (H : Hashes) (t : Tx) : Bytes := H.sha256d t.enc
+end Tx
+
 structure FullParams where
   signblockscript : Bytes
   signblockWitnessLimit : Nat
